@@ -18,6 +18,7 @@ pub open spec fn format_wf(f: &NarseseFormat<&str>) -> bool {
     &&& f.compound.brackets_set_extension.0@.len() > 0
     &&& f.compound.brackets_set_intension.0@.len() > 0
     &&& f.atom.prefix_placeholder@.len() > 0
+    &&& f.compound.separator@.len() > 0
 }
 
 pub open spec fn mid_empty(m: MidParseResult) -> bool {
@@ -55,3 +56,49 @@ impl<'a> ParseState<'a, &'a str> {
             && self.env@.subrange(self.head as int, self.head + kw.len()) == kw
     }
 }
+
+/// A2 (dependency): nar_dev_utils `ZeroOneFloat::is_in_01` for f64 is `(0.0..=1.0).contains(x)`;
+/// the Kani unit `floats` proves that for every f64 bit pattern.  Here it *defines* the
+/// uninterpreted range predicate used in the well-formedness specs.
+#[verifier::external_trait_specification]
+pub trait ExZeroOneFloat {
+    type ExternalTraitSpecificationFor: ZeroOneFloat;
+    fn is_in_01(&self) -> bool;
+}
+pub assume_specification[ <f64 as ZeroOneFloat>::is_in_01 ](x: &f64) -> (r: bool)
+    ensures r == f64_in_01(*x);
+
+// ---- frames over the five optional slots ----
+pub open spec fn mid_eq_except_punctuation(a: MidParseResult, b: MidParseResult) -> bool {
+    a.budget == b.budget && a.term == b.term && a.stamp == b.stamp && a.truth == b.truth
+}
+pub open spec fn mid_eq_except_stamp(a: MidParseResult, b: MidParseResult) -> bool {
+    a.budget == b.budget && a.term == b.term && a.punctuation == b.punctuation && a.truth == b.truth
+}
+pub open spec fn mid_eq_except_truth(a: MidParseResult, b: MidParseResult) -> bool {
+    a.budget == b.budget && a.term == b.term && a.punctuation == b.punctuation && a.stamp == b.stamp
+}
+pub open spec fn mid_eq_except_budget(a: MidParseResult, b: MidParseResult) -> bool {
+    a.term == b.term && a.punctuation == b.punctuation && a.stamp == b.stamp && a.truth == b.truth
+}
+pub open spec fn mid_eq_except_term(a: MidParseResult, b: MidParseResult) -> bool {
+    a.budget == b.budget && a.punctuation == b.punctuation && a.stamp == b.stamp && a.truth == b.truth
+}
+
+/// C12 (one level): what a term returned by the enum parser looks like at its root
+pub open spec fn parsed_wf(t: Term) -> bool {
+    match t {
+        Term::Word(n) | Term::VariableIndependent(n) | Term::VariableDependent(n)
+        | Term::VariableQuery(n) | Term::Operator(n) => n@.len() > 0,
+        Term::SetExtension(s) | Term::SetIntension(s) | Term::IntersectionExtension(s)
+        | Term::IntersectionIntension(s) | Term::Conjunction(s) | Term::Disjunction(s)
+        | Term::ConjunctionParallel(s) => s@.len() > 0,
+        Term::Product(v) | Term::ConjunctionSequential(v) => v@.len() > 0,
+        Term::ImageExtension(i, v) | Term::ImageIntension(i, v) => i <= v.len(),
+        _ => true,
+    }
+}
+
+/// assumed in this unit, proved in unit `term_eq` (C06): comparing with the placeholder
+pub assume_specification[ <Term as PartialEq>::eq ](a: &Term, b: &Term) -> (r: bool)
+    ensures *b == Term::Placeholder ==> r == (*a == Term::Placeholder);
